@@ -11,7 +11,7 @@ use oracle::tables;
 use serde_json::json;
 
 pub const ID: &str = "C09";
-pub const FAMS: [&str; 5] = ["byte-at-position", "class-pattern", "two-bytes", "planted-foreign", "single-class-long"];
+pub const FAMS: [&str; 6] = ["byte-at-position", "class-pattern", "two-bytes", "planted-foreign", "single-class-long", "three-bytes"];
 
 const BG: [&[u8]; 3] = [b"0123456789", b"AZ $%*+-./:K7", b"az,!\x00\x7f\x80\xff@[`{"];
 const REPS: [[u8; 2]; 3] = [[b'0', b'9'], [b'A', b':'], [b'a', 0xE9]];
@@ -63,7 +63,7 @@ pub fn jobs(ctx: &Ctx) -> Vec<Job> {
     }
     // long strings of one class with one foreign byte planted at a random position
     let mut rng = Rng::new(ctx.seed ^ 0xc09);
-    let n = ctx.tier.pick(4_000, ctx.scale(40_000));
+    let n = ctx.tier.pick(6_000, ctx.scale(500_000));
     for _ in 0..n {
         k += 1;
         let class = rng.below(2); // background digits or alnum
@@ -84,6 +84,13 @@ pub fn jobs(ctx: &Ctx) -> Vec<Job> {
         });
     }
     if ctx.tier == Tier::Thorough {
+        // ALL three-byte strings (16.7 million): one job per two-byte prefix, the worker loops over the third byte
+        for a in 0..=255u8 {
+            for b in 0..=255u8 {
+                k += 1;
+                jobs.push(Job { fam: FAMS[5], class: 2, len: 3, payload: Some(vec![a, b, 0]), seed: mix(ctx.seed, k), level: Some((k % 4) as usize), mask: Some((k % 8) as usize), ..Default::default() });
+            }
+        }
         for class in 0..3usize {
             for len in (0..2000).step_by(7) {
                 k += 1;
@@ -108,6 +115,16 @@ fn payload_of(job: &Job) -> Vec<u8> {
 }
 
 pub fn observe(ctx: &Ctx, st: &mut Stats, job: &Job) {
+    if job.fam == FAMS[5] && job.aux[3] == 0 {
+        // expand the prefix job into its 256 strings (aux[3] = 1 marks an expanded single string, also used by replay)
+        let base = job.payload();
+        for c in 0..=255u8 {
+            let j = Job { payload: Some(vec![base[0], base[1], c]), aux: [0, 0, 0, 1], ..job.clone() };
+            observe(ctx, st, &j);
+        }
+        st.count("three_byte_prefixes_exhausted", 1);
+        return;
+    }
     let mut cfg = job.config();
     cfg.input = payload_of(job);
     cfg.mode = None;
@@ -175,7 +192,7 @@ pub fn run(ctx: &Ctx) -> Report {
     let st = pool::run(&jobs, ctx.remaining(), |st, job, _| observe(ctx, st, job));
     let mut rep = Report::new(
         st,
-        "jobs = all 256 byte values at every position of strings of length 1..8 over digit / alphanumeric / other backgrounds (27,648), all 3^L class patterns for L<=8 with two representative characters per class (19,682), all 256^2 two-byte strings (65,536), random strings of length <=1200 with one arbitrary byte planted at a random position; every build uses automatic mode; observed: QRCode.mode == oracle class (45-character set spelled out independently), the mode indicator decoded from the symbol, and the reference decode equals the input byte for byte; distinct key = payload hash; non-trivial = every distinct string",
+        "jobs = all 256 byte values at every position of strings of length 1..8 over digit / alphanumeric / other backgrounds (27,648), all 3^L class patterns for L<=8 with two representative characters per class (19,682), all 256^2 two-byte strings (65,536), in the thorough tier ALL 256^3 three-byte strings (16,777,216), random strings of length <=1200 with one arbitrary byte planted at a random position; every build uses automatic mode; observed: QRCode.mode == oracle class (45-character set spelled out independently), the mode indicator decoded from the symbol, and the reference decode equals the input byte for byte; distinct key = payload hash; non-trivial = every distinct string",
     );
     rep.exhaustive = Some(true);
     rep.expected_sets = vec![("classes", 3), ("byte_values_seen", 256)];
